@@ -19,12 +19,20 @@ type regMapSpec struct {
 	Init  uint16
 	// validator: writes of odd values to these registers are rejected
 	OddRejected []uint16
+	// Ranges: the map is built by these AddReg(address, count) calls, in this order (they may overlap, as the
+	// register blocks of 16- and 32-bit IO points of one device do); Addrs is their union
+	Ranges [][2]int
 }
 
 func (s regMapSpec) build() *modbus.Regs {
 	r := &modbus.Regs{}
+	for _, rg := range s.Ranges {
+		r.AddReg(rg[0], rg[1])
+	}
 	for _, a := range s.Addrs {
-		r.AddReg(int(a), 1)
+		if len(s.Ranges) == 0 {
+			r.AddReg(int(a), 1)
+		}
 		if s.Init != 0 {
 			_ = r.WriteReg(int(a), s.Init)
 		}
@@ -265,6 +273,7 @@ var c18Maps = []regMapSpec{
 	{Name: "dense0-255/ones", Addrs: seqU16(0, 256), Init: 0xffff},
 	{Name: "dense0-15/validators", Addrs: seqU16(0, 16), Init: 0x1234, OddRejected: []uint16{1, 3}},
 	{Name: "top+bottom", Addrs: []uint16{0xffff, 0, 1, 0x0fff, 0xfff}, Init: 0x8001},
+	{Name: "overlapping-ranges", Ranges: [][2]int{{10, 1}, {10, 2}, {20, 2}, {21, 2}, {30, 4}, {28, 4}, {40, 3}, {40, 3}}, Addrs: []uint16{10, 11, 20, 21, 22, 28, 29, 30, 31, 32, 33, 40, 41, 42}, Init: 0x4321},
 }
 
 func seqU16(a, n int) []uint16 {
